@@ -202,20 +202,29 @@ pub fn render_evs(evs: &[Ev]) -> String {
 // ---------------------------------------------------------------------------------------------
 // scripted inner service
 
+/// marker put into the request's `Extensions` by the caller
+#[derive(Clone, PartialEq, Debug)]
+struct Marker(u32);
+
 #[derive(Default, Clone)]
 struct Seen {
     called: bool,
     headers: Option<HeaderMap>,
     version: Option<Version>,
     method: Option<Method>,
+    uri: Option<http::Uri>,
+    ext: bool,
     frames: Vec<String>,
 }
+
+/// headers of the inner service's response: a repeated `content-type` (which `insert` must
+/// replace as a whole) and a repeated custom name
+pub const INNER_RESP_HEADERS: [(&str, &str); 4] = [("content-type", "application/grpc"), ("x-inner", "a"), ("content-type", "dup"), ("x-inner", "b")];
 
 #[derive(Clone)]
 struct Inner {
     seen: Arc<Mutex<Seen>>,
     resp_evs: Vec<Ev>,
-    resp_ct: Option<&'static str>,
 }
 
 impl Service<Request<tonic::body::Body>> for Inner {
@@ -228,21 +237,22 @@ impl Service<Request<tonic::body::Body>> for Inner {
     fn call(&mut self, req: Request<tonic::body::Body>) -> Self::Future {
         let seen = self.seen.clone();
         let resp_evs = self.resp_evs.clone();
-        let resp_ct = self.resp_ct;
         Box::pin(async move {
             let (parts, body) = req.into_parts();
             let frames = drain(body).await;
             {
                 let mut s = seen.lock().unwrap();
                 s.called = true;
+                s.ext = parts.extensions.get::<Marker>() == Some(&Marker(7));
                 s.headers = Some(parts.headers);
                 s.version = Some(parts.version);
                 s.method = Some(parts.method);
+                s.uri = Some(parts.uri);
                 s.frames = frames;
             }
             let mut res = Response::new(ScriptBody::new(resp_evs));
-            if let Some(ct) = resp_ct {
-                res.headers_mut().insert(http::header::CONTENT_TYPE, HeaderValue::from_static(ct));
+            for (k, v) in INNER_RESP_HEADERS {
+                res.headers_mut().append(HeaderName::from_static(k), HeaderValue::from_static(v));
             }
             Ok(res)
         })
@@ -257,42 +267,75 @@ fn opt_hv(tok: &str) -> Option<Option<HeaderValue>> {
     }
 }
 
-fn hv_tok(v: Option<&HeaderValue>) -> String {
-    match v {
-        None => "none".into(),
-        Some(v) => hex(v.as_bytes()),
+/// `<n> (name value)*`: all entries, stably sorted by name (per-name value order kept)
+pub fn render_headers_sorted(h: &HeaderMap) -> String {
+    let mut ps: Vec<(Vec<u8>, Vec<u8>)> = h.iter().map(|(k, v)| (k.as_str().as_bytes().to_vec(), v.as_bytes().to_vec())).collect();
+    ps.sort_by(|a, b| a.0.cmp(&b.0));
+    let mut out = vec![ps.len().to_string()];
+    for (k, v) in ps {
+        out.push(hex(&k));
+        out.push(hex(&v));
     }
+    out.join(" ")
 }
 
 struct CallOut {
     status: u16,
-    resp_ct: String,
+    resp_headers: HeaderMap,
     resp_frames: Vec<String>,
     seen: Seen,
 }
 
-fn run_call(method: Method, version: Version, ct: Option<HeaderValue>, accept: Option<HeaderValue>, extra: &[(&'static str, &'static str)], req_evs: Vec<Ev>, resp_evs: Vec<Ev>, resp_ct: Option<&'static str>) -> Option<CallOut> {
+struct CallIn {
+    method: Method,
+    version: Version,
+    uri: http::Uri,
+    ext: bool,
+    headers: Vec<(Vec<u8>, Vec<u8>)>,
+    req_evs: Vec<Ev>,
+    resp_evs: Vec<Ev>,
+}
+
+fn run_call(c: CallIn) -> Option<CallOut> {
     let seen = Arc::new(Mutex::new(Seen::default()));
-    let inner = Inner { seen: seen.clone(), resp_evs, resp_ct };
+    let inner = Inner { seen: seen.clone(), resp_evs: c.resp_evs };
     let mut svc = tonic_web::GrpcWebLayer::new().layer(inner);
-    let mut req = Request::new(ScriptBody::new(req_evs));
-    *req.method_mut() = method;
-    *req.version_mut() = version;
-    for (k, v) in extra {
-        req.headers_mut().append(HeaderName::from_static(k), HeaderValue::from_static(v));
+    let mut req = Request::new(ScriptBody::new(c.req_evs));
+    *req.method_mut() = c.method;
+    *req.version_mut() = c.version;
+    *req.uri_mut() = c.uri;
+    if c.ext {
+        req.extensions_mut().insert(Marker(7));
     }
-    if let Some(ct) = ct {
-        req.headers_mut().insert(http::header::CONTENT_TYPE, ct);
-    }
-    if let Some(a) = accept {
-        req.headers_mut().insert(http::header::ACCEPT, a);
-    }
+    *req.headers_mut() = header_map(&c.headers)?;
     let fut = svc.call(req);
     let res = block_on(fut)?.unwrap();
     let (parts, body) = res.into_parts();
     let frames = block_on(drain(body))?;
     let s = seen.lock().unwrap().clone();
-    Some(CallOut { status: parts.status.as_u16(), resp_ct: hv_tok(parts.headers.get(http::header::CONTENT_TYPE)), resp_frames: frames, seen: s })
+    Some(CallOut { status: parts.status.as_u16(), resp_headers: parts.headers, resp_frames: frames, seen: s })
+}
+
+fn ver_of(tok: &str) -> Option<Version> {
+    Some(match tok {
+        "h09" => Version::HTTP_09,
+        "h10" => Version::HTTP_10,
+        "h11" => Version::HTTP_11,
+        "h2" => Version::HTTP_2,
+        "h3" => Version::HTTP_3,
+        _ => return None,
+    })
+}
+
+fn ver_tok(v: Version) -> &'static str {
+    match v {
+        Version::HTTP_09 => "h09",
+        Version::HTTP_10 => "h10",
+        Version::HTTP_11 => "h11",
+        Version::HTTP_2 => "h2",
+        Version::HTTP_3 => "h3",
+        _ => "h?",
+    }
 }
 
 const KIND_REQ: &[u8] = b"AAAA";
@@ -300,67 +343,78 @@ fn kind_resp() -> Vec<Ev> {
     vec![Ev::Data(vec![0, 0, 0, 0, 1, 7]), Ev::Trailers(vec![(b"grpc-status".to_vec(), b"0".to_vec())])]
 }
 
+/// headers the `req` cases send next to the content type
+pub const REQ_EXTRA: [(&str, &str); 5] = [("content-length", "123"), ("te", "gzip"), ("accept-encoding", "br"), ("x-user", "a"), ("x-user", "b")];
+
 pub fn execute(case: &str) -> String {
     let t: Vec<&str> = case.split(' ').filter(|s| !s.is_empty()).collect();
     match t.as_slice() {
         ["resp", acc, evs @ ..] => {
             let (Some(acc), Some(evs)) = (opt_hv(acc), parse_evs(evs)) else { return "bad-case".into() };
-            let Some(o) = run_call(Method::POST, Version::HTTP_11, Some(HeaderValue::from_static("application/grpc-web")), acc, &[], vec![], evs, Some("application/grpc")) else {
+            let mut headers = vec![(b"content-type".to_vec(), b"application/grpc-web".to_vec())];
+            if let Some(a) = acc {
+                headers.push((b"accept".to_vec(), a.as_bytes().to_vec()));
+            }
+            let Some(o) = run_call(CallIn { method: Method::POST, version: Version::HTTP_11, uri: http::Uri::from_static("/"), ext: false, headers, req_evs: vec![], resp_evs: evs }) else {
                 return "hang".into();
             };
-            format!("{} {} {}", o.status, o.resp_ct, o.resp_frames.join(" "))
+            format!("{} h {} {}", o.status, render_headers_sorted(&o.resp_headers), o.resp_frames.join(" "))
         }
         ["req", ct, evs @ ..] => {
             let (Some(ct), Some(evs)) = (opt_hv(ct), parse_evs(evs)) else { return "bad-case".into() };
-            let extra = [("content-length", "123"), ("te", "gzip"), ("accept-encoding", "br"), ("x-user", "a"), ("x-user", "b")];
-            let Some(o) = run_call(Method::POST, Version::HTTP_11, ct, None, &extra, evs, vec![], None) else {
+            let mut headers: Vec<(Vec<u8>, Vec<u8>)> = REQ_EXTRA.iter().map(|(k, v)| (k.as_bytes().to_vec(), v.as_bytes().to_vec())).collect();
+            if let Some(ct) = ct {
+                headers.push((b"content-type".to_vec(), ct.as_bytes().to_vec()));
+            }
+            let Some(o) = run_call(CallIn { method: Method::POST, version: Version::HTTP_11, uri: http::Uri::from_static("/"), ext: false, headers, req_evs: evs, resp_evs: vec![] }) else {
                 return "hang".into();
             };
             if !o.seen.called {
                 return format!("{} skipped", o.status);
             }
-            let h = o.seen.headers.unwrap();
-            let xu: Vec<String> = h.get_all("x-user").iter().map(|v| hex(v.as_bytes())).collect();
-            format!(
-                "{} ct {} te {} ae {} cl {} xu {} {} | {}",
-                o.status,
-                hv_tok(h.get("content-type")),
-                hv_tok(h.get("te")),
-                hv_tok(h.get("accept-encoding")),
-                h.get_all("content-length").iter().count(),
-                xu.len(),
-                xu.join(" "),
-                o.seen.frames.join(" ")
-            )
+            format!("{} h {} | {}", o.status, render_headers_sorted(&o.seen.headers.unwrap()), o.seen.frames.join(" "))
         }
-        ["kind", m, ver, ct, acc] => {
-            let Some(mb) = unhex(m) else { return "bad-case".into() };
+        // call <method> <ver> <uri> <ext 0|1> <n> (<name> <value>){n} <req ev>*
+        ["call", m, ver, uri, ext, n, rest @ ..] => {
+            let (Some(mb), Some(ub)) = (unhex(m), unhex(uri)) else { return "bad-case".into() };
             let Ok(method) = Method::from_bytes(&mb) else { return "bad-case".into() };
-            let version = match *ver {
-                "h09" => Version::HTTP_09,
-                "h10" => Version::HTTP_10,
-                "h11" => Version::HTTP_11,
-                "h2" => Version::HTTP_2,
-                "h3" => Version::HTTP_3,
-                _ => return "bad-case".into(),
-            };
-            let (Some(ct), Some(acc)) = (opt_hv(ct), opt_hv(acc)) else { return "bad-case".into() };
-            let Some(o) = run_call(method.clone(), version, ct, acc, &[], vec![Ev::Data(KIND_REQ.to_vec())], kind_resp(), Some("application/grpc")) else {
+            let Ok(uri) = http::Uri::try_from(&ub[..]) else { return "bad-case".into() };
+            let Some(version) = ver_of(ver) else { return "bad-case".into() };
+            let Ok(n) = n.parse::<usize>() else { return "bad-case".into() };
+            if rest.len() < 2 * n || !(*ext == "0" || *ext == "1") {
+                return "bad-case".into();
+            }
+            let mut headers = Vec::new();
+            for j in 0..n {
+                let (Some(k), Some(v)) = (unhex(rest[2 * j]), unhex(rest[2 * j + 1])) else { return "bad-case".into() };
+                // the case must name headers the way a HeaderMap stores them (lower case)
+                if k.iter().any(|b| b.is_ascii_uppercase()) {
+                    return "bad-case".into();
+                }
+                headers.push((k, v));
+            }
+            if header_map(&headers).is_none() {
+                return "bad-case".into();
+            }
+            let Some(req_evs) = parse_evs(&rest[2 * n..]) else { return "bad-case".into() };
+            let Some(o) = run_call(CallIn { method, version, uri, ext: *ext == "1", headers, req_evs, resp_evs: kind_resp() }) else {
                 return "hang".into();
             };
+            let resp = format!("rh {} {}", render_headers_sorted(&o.resp_headers), o.resp_frames.join(" "));
             if !o.seen.called {
-                return format!("{} skipped {}", o.status, o.resp_frames.join(" "));
+                return format!("{} skipped {}", o.status, resp);
             }
-            let h = o.seen.headers.unwrap();
-            let same = o.seen.method == Some(method) && o.seen.version == Some(version);
+            let s = o.seen;
             format!(
-                "{} called {} {} {} | {} {}",
+                "{} called {} {} {} {} h {} b {} | {}",
                 o.status,
-                if same { "same" } else { "changed" },
-                hv_tok(h.get("content-type")),
-                o.seen.frames.join(" "),
-                o.resp_ct,
-                o.resp_frames.join(" ")
+                hex(s.method.unwrap().as_str().as_bytes()),
+                ver_tok(s.version.unwrap()),
+                hex(s.uri.unwrap().to_string().as_bytes()),
+                if s.ext { 1 } else { 0 },
+                render_headers_sorted(&s.headers.unwrap()),
+                s.frames.join(" "),
+                resp
             )
         }
         _ => "bad-case".into(),
@@ -443,6 +497,16 @@ pub fn gen_trailers(rng: &mut Rng) -> Vec<(Vec<u8>, Vec<u8>)> {
         out.push((k, v));
     }
     out
+}
+
+/// `gen_trailers` until the result is something a HeaderMap holds
+pub fn gen_trailers_valid(rng: &mut Rng) -> Vec<(Vec<u8>, Vec<u8>)> {
+    loop {
+        let tr = gen_trailers(rng);
+        if header_map(&tr).is_some() {
+            return tr;
+        }
+    }
 }
 
 /// Cut `bytes` into chunks. Strategies: whole, every byte, at every cut of `marks` (frame starts
@@ -572,6 +636,73 @@ fn req_case(ct: &str, evs: &[Ev]) -> String {
     }
 }
 
+const URIS: [&str; 5] = ["/", "/pkg.Svc/Method", "http://example.com/pkg.Svc/M?x=1&y=a%20b", "*", "https://h:8443/a/b/"];
+const HDR_NAMES: [&str; 12] = ["content-type", "accept", "te", "content-length", "accept-encoding", "x-user", "x-user", "grpc-timeout", "authorization", "origin", "x-grpc-web", "content-encoding"];
+
+fn call_case(method: &[u8], ver: &str, uri: &str, ext: bool, hs: &[(Vec<u8>, Vec<u8>)], evs: &[Ev]) -> String {
+    let mut t = vec!["call".to_string(), hex(method), ver.to_string(), hex(uri.as_bytes()), if ext { "1".into() } else { "0".into() }, hs.len().to_string()];
+    for (k, v) in hs {
+        t.push(hex(k));
+        t.push(hex(v));
+    }
+    let e = render_evs(evs);
+    if !e.is_empty() {
+        t.push(e);
+    }
+    t.join(" ")
+}
+
+/// further request headers of a `call` case: every header `coerce_request` touches, in several
+/// combinations, plus custom ones
+fn gen_extra_headers(rng: &mut Rng) -> Vec<(Vec<u8>, Vec<u8>)> {
+    let p = |k: &str, v: &str| (k.as_bytes().to_vec(), v.as_bytes().to_vec());
+    match rng.below(6) {
+        0 => vec![],
+        1 => vec![p("te", "gzip"), p("content-length", "4")],
+        2 => vec![p("content-length", "4"), p("x-user", "a"), p("accept-encoding", "br"), p("x-user", "b")],
+        3 => vec![p("te", "trailers"), p("te", "deflate"), p("grpc-timeout", "1S"), p("content-length", "4"), p("content-length", "4")],
+        4 => vec![p("x-user", "b"), p("authorization", "Bearer a:b"), p("x-user", "a")],
+        _ => vec![p("accept-encoding", "gzip"), p("accept-encoding", "identity"), p("te", "gzip"), p("origin", "http://example.com")],
+    }
+}
+
+/// the sizes of DESIGN §9.9 A1: around 16 KiB, 32 KiB, 64 KiB and well beyond
+pub const BIG_SIZES: [usize; 9] = [16383, 16384, 16385, 32767, 32768, 32769, 65535, 65536, 100000];
+
+pub fn big_payload(rng: &mut Rng, sz: usize) -> Vec<u8> {
+    match rng.below(3) {
+        0 => (0..sz).map(|i| (i * 7 + i / 256) as u8).collect(),
+        1 => vec![0x80u8; sz],
+        _ => rng.bytes(sz),
+    }
+}
+
+/// trailer maps beyond the one-byte and two-byte length ranges: (a) > 255 B in total from short
+/// entries, (b) one value of 70 000 B, (c) > 65 535 B in total from many medium entries
+pub fn big_trailers(rng: &mut Rng, which: u64) -> Vec<(Vec<u8>, Vec<u8>)> {
+    let mut tr = vec![(b"grpc-status".to_vec(), b"0".to_vec())];
+    match which % 3 {
+        0 => {
+            for i in 0..rng.range(12, 20) {
+                tr.push((format!("x-k{}", i % 5).into_bytes(), format!("value:{} with some text;{}", i, "ab".repeat(rng.range(3, 9) as usize)).into_bytes()));
+            }
+        }
+        1 => {
+            let v: Vec<u8> = (0..70000usize).map(|i| b"abcdefghijklmnopqrstuvwxyz:0123 ;="[(i * 11 + i / 97) % 34]).collect();
+            tr.push((b"x-big".to_vec(), v));
+            tr.push((b"grpc-message".to_vec(), b"after the big one".to_vec()));
+        }
+        _ => {
+            for i in 0..rng.range(300, 340) {
+                let l = rng.range(200, 260) as usize;
+                let v: Vec<u8> = (0..l).map(|j| b"abc:xyz 019"[(i as usize + j) % 11]).collect();
+                tr.push((format!("x-m{}", i % 37).into_bytes(), v));
+            }
+        }
+    }
+    tr
+}
+
 pub fn generate(tier: &str, rng: &mut Rng) -> Vec<String> {
     let thorough = tier == "thorough";
     let mut out: Vec<String> = Vec::new();
@@ -608,7 +739,10 @@ pub fn generate(tier: &str, rng: &mut Rng) -> Vec<String> {
         out.push(req_case(ct, &[Ev::Data(b"AAAA".to_vec()), Ev::Err]));
     }
 
-    // ---- kind: full product -----------------------------------------------------------------
+    // ---- call: the four arms of `GrpcWebService::call`, whole request observed -----------------
+    // full product of method x version x content-type x accept, each with one of several sets of
+    // further headers (te, content-length, accept-encoding, repeated custom names, a second
+    // content-type / accept value), a uri and the extensions marker
     let methods = ["POST", "GET", "PUT", "DELETE", "HEAD", "OPTIONS", "PATCH", "post", "POSTX", "CONNECT", "TRACE", "Post"];
     let vers = ["h09", "h10", "h11", "h2", "h3"];
     let cts = [
@@ -634,7 +768,19 @@ pub fn generate(tier: &str, rng: &mut Rng) -> Vec<String> {
             for ct in cts {
                 for acc in ACCEPTS {
                     if thorough || m == "POST" || m == "GET" || rng.chance(1, 4) {
-                        out.push(format!("kind {} {} {} {}", hex(m.as_bytes()), v, tok(ct), tok(acc)));
+                        let mut hs: Vec<(Vec<u8>, Vec<u8>)> = Vec::new();
+                        let extra = gen_extra_headers(rng);
+                        let cut = rng.below(extra.len() as u64 + 1) as usize;
+                        hs.extend_from_slice(&extra[..cut]);
+                        if ct != "none" {
+                            hs.push((b"content-type".to_vec(), ct.as_bytes().to_vec()));
+                        }
+                        if acc != "none" {
+                            hs.push((b"accept".to_vec(), acc.as_bytes().to_vec()));
+                        }
+                        hs.extend_from_slice(&extra[cut..]);
+                        let body = if rng.chance(1, 8) { vec![Ev::Data(vec![0, 0, 0, 0, 2]), Ev::Pending, Ev::Data(vec![8, 9])] } else { vec![Ev::Data(KIND_REQ.to_vec())] };
+                        out.push(call_case(m.as_bytes(), v, *rng.pick(&URIS), rng.chance(1, 2), &hs, &body));
                     }
                 }
             }
@@ -643,8 +789,56 @@ pub fn generate(tier: &str, rng: &mut Rng) -> Vec<String> {
     // high-bit / odd content-type bytes
     for ct in [&b"application/grpc-web\xff"[..], b"\xe2\x98\x83", b"application/grpc-web\t"] {
         for v in vers {
-            out.push(format!("kind {} {} {} none", hex(b"POST"), v, hex(ct)));
+            out.push(call_case(b"POST", v, "/", false, &[(b"content-type".to_vec(), ct.to_vec())], &[Ev::Data(KIND_REQ.to_vec())]));
         }
+    }
+    // the first value of a repeated content-type / accept decides (`HeaderMap::get`)
+    for v in ["h11", "h2"] {
+        for (a, b) in [("application/grpc-web-text", "application/grpc"), ("application/grpc", "application/grpc-web"), ("application/json", "application/grpc-web-text+proto")] {
+            for m in ["POST", "GET"] {
+                let hs = vec![
+                    (b"content-type".to_vec(), a.as_bytes().to_vec()),
+                    (b"te".to_vec(), b"gzip".to_vec()),
+                    (b"accept".to_vec(), b.as_bytes().to_vec()),
+                    (b"content-type".to_vec(), b.as_bytes().to_vec()),
+                    (b"content-length".to_vec(), b"4".to_vec()),
+                    (b"accept".to_vec(), a.as_bytes().to_vec()),
+                ];
+                out.push(call_case(m.as_bytes(), v, "/pkg.Svc/M", true, &hs, &[Ev::Data(KIND_REQ.to_vec())]));
+            }
+        }
+    }
+    // random header maps (names from a vocabulary that contains every header the layer touches)
+    let n_call = if thorough { 6000 } else { 600 };
+    for _ in 0..n_call {
+        let n = rng.below(9) as usize;
+        let mut hs: Vec<(Vec<u8>, Vec<u8>)> = Vec::new();
+        for _ in 0..n {
+            let k = *rng.pick(&HDR_NAMES);
+            let v: Vec<u8> = match k {
+                "content-type" | "accept" => {
+                    if rng.chance(3, 4) {
+                        rng.pick(&WEB_CTS).as_bytes().to_vec()
+                    } else {
+                        rng.pick(&cts[5..]).as_bytes().to_vec()
+                    }
+                }
+                _ => rng.pick(&VALUES).to_vec(),
+            };
+            hs.push((k.as_bytes().to_vec(), v));
+        }
+        if header_map(&hs).is_none() {
+            continue;
+        }
+        let m = *rng.pick(&["POST", "POST", "GET", "OPTIONS"]);
+        let v = *rng.pick(&["h11", "h2", "h2", "h10", "h3"]);
+        let fs = gen_frames(rng, 2, false);
+        let payload = frames_bytes(&fs);
+        let text = hs.iter().find(|p| p.0 == b"content-type").map(|p| p.1.starts_with(b"application/grpc-web-text")).unwrap_or(false);
+        let body = if text { b64(&payload) } else { payload };
+        let ck = chunkings(&body, &[], rng, 1).pop().unwrap();
+        let evs = with_pendings(&ck, rng, 4);
+        out.push(call_case(m.as_bytes(), v, *rng.pick(&URIS), rng.chance(1, 2), &hs, &evs));
     }
 
     // ---- resp: structured -------------------------------------------------------------------
@@ -670,6 +864,54 @@ pub fn generate(tier: &str, rng: &mut Rng) -> Vec<String> {
             }
             evs.push(Ev::Trailers(tr.clone()));
             out.push(resp_case(acc, &evs));
+        }
+    }
+    // ---- resp: sizes around 16 KiB / 32 KiB / 64 KiB and beyond (DESIGN §9.9 A1) -----------------
+    for (i, &sz) in BIG_SIZES.iter().enumerate() {
+        let fs = vec![(rng.below(2) as u8, big_payload(rng, sz))];
+        let bytes = frames_bytes(&fs);
+        for (j, acc) in ["application/grpc-web-text", "application/grpc-web+proto"].iter().enumerate() {
+            // the frame in one chunk of exactly / just over the size
+            let mut cks: Vec<Vec<Vec<u8>>> = vec![vec![bytes.clone()]];
+            // a first chunk of exactly `sz` bytes (the 5 prefix bytes push the payload's tail into a second one)
+            if (i + j) % 2 == 0 || thorough {
+                cks.push(vec![bytes[..sz].to_vec(), bytes[sz..].to_vec()]);
+            }
+            if thorough {
+                cks.extend(chunkings(&bytes, &[5, 16384, 32768, 65536], rng, 2));
+            }
+            for ck in cks {
+                let mut evs = with_pendings(&ck, rng, 3);
+                evs.push(Ev::Trailers(st0.clone()));
+                out.push(resp_case(acc, &evs));
+            }
+        }
+    }
+    // one body chunk holding several frames that total more than 64 KiB
+    for acc in ["application/grpc-web-text", "application/grpc-web"] {
+        let fs = vec![(0u8, big_payload(rng, 30000)), (1u8, big_payload(rng, 30001)), (0u8, big_payload(rng, 10000)), (0u8, vec![])];
+        let bytes = frames_bytes(&fs);
+        let mut evs = vec![Ev::Data(bytes.clone())];
+        evs.push(Ev::Trailers(gen_trailers_valid(rng)));
+        out.push(resp_case(acc, &evs));
+        if thorough {
+            for ck in chunkings(&bytes, &prefix_marks(&fs), rng, 3) {
+                let mut evs = with_pendings(&ck, rng, 3);
+                evs.push(Ev::Trailers(gen_trailers_valid(rng)));
+                out.push(resp_case(acc, &evs));
+            }
+        }
+    }
+    // trailer maps of > 255 B, with one value of 70 000 B, of > 65 535 B in total
+    for which in 0..3u64 {
+        for acc in ["application/grpc-web-text+proto", "none"] {
+            let reps = if thorough { 3 } else { 1 };
+            for _ in 0..reps {
+                let fs = gen_frames(rng, 2, true);
+                let mut evs = with_pendings(&[frames_bytes(&fs)], rng, 2);
+                evs.push(Ev::Trailers(big_trailers(rng, which)));
+                out.push(resp_case(acc, &evs));
+            }
         }
     }
     // small-scope exhaustive: every chunking of small bodies, both forms
@@ -758,6 +1000,39 @@ pub fn generate(tier: &str, rng: &mut Rng) -> Vec<String> {
                 let dens = *rng.pick(&[0u64, 0, 3]);
                 let evs = with_pendings(&ck, rng, dens);
                 out.push(req_case(ct, &evs));
+            }
+        }
+    }
+    // ---- req: sizes around 16 KiB / 32 KiB / 64 KiB and beyond, binary and text ------------------
+    for (i, &sz) in BIG_SIZES.iter().enumerate() {
+        let fs = vec![(rng.below(2) as u8, big_payload(rng, sz - 5))]; // the whole frame is `sz` bytes
+        let payload = frames_bytes(&fs);
+        for (j, ct) in [WEB_CTS[2], WEB_CTS[0]].iter().enumerate() {
+            let text = ct.contains("text");
+            let body = if text { b64(&payload) } else { payload.clone() };
+            let mut cks: Vec<Vec<Vec<u8>>> = vec![vec![body.clone()]];
+            if (i + j) % 2 == 1 || thorough {
+                // a text chunk of exactly `sz` characters / a binary one cut inside a quantum-sized tail
+                let at = if text { sz } else { sz - 3 };
+                cks.push(vec![body[..at].to_vec(), body[at..].to_vec()]);
+            }
+            if thorough {
+                cks.extend(chunkings(&body, &[8192, 8193, 16384, 32768, 65536], rng, 2));
+            }
+            for ck in cks {
+                out.push(req_case(ct, &with_pendings(&ck, rng, 3)));
+            }
+        }
+    }
+    // several frames in one chunk, > 64 KiB together
+    for ct in [WEB_CTS[3], WEB_CTS[1]] {
+        let fs = vec![(0u8, big_payload(rng, 30000)), (1u8, big_payload(rng, 30001)), (0u8, big_payload(rng, 10000))];
+        let payload = frames_bytes(&fs);
+        let body = if ct.contains("text") { b64(&payload) } else { payload };
+        out.push(req_case(ct, &[Ev::Data(body.clone())]));
+        if thorough {
+            for ck in chunkings(&body, &[], rng, 3) {
+                out.push(req_case(ct, &with_pendings(&ck, rng, 3)));
             }
         }
     }
